@@ -61,7 +61,9 @@ func vInit(shape int) {
 func vFunctionNames() []string {
 	var out []string
 	for i := range vShape {
-		out = append(out, vShape[i].name)
+		if !vGone(vShape[i].name) {
+			out = append(out, vShape[i].name)
+		}
 	}
 	return out
 }
@@ -87,6 +89,9 @@ func vEdit() {
 	}
 	if vAllowBreak {
 		kinds = append(kinds, "break-dependency")
+	}
+	if names := vFunctionNames(); len(vSpec(names[len(names)-1]).deps) >= 2 {
+		kinds = append(kinds, "drop-dependency")
 	}
 	switch kinds[vChoose("edit", len(kinds))] {
 	case "nothing":
@@ -130,6 +135,15 @@ func vEdit() {
 				}
 			}
 		}
+	case "drop-dependency":
+		// a BUILD file edit that removes (or restores) the top target's last dependency — the edge
+		// and the dependency target itself — while the top target's function stays the same: the
+		// dependency list is not part of the up-to-date check, so the target stays up to date (and
+		// must keep its record through a collection, although the record still names the removed label)
+		names := vFunctionNames()
+		top := names[len(names)-1]
+		vDropped[top] = !vDropped[top]
+		vReach("edit-drop-dependency")
 	case "break-dependency":
 		// a BUILD file edit that makes the top target depend on a label that names no target (a
 		// typo), or repairs it again
@@ -308,7 +322,7 @@ func vC02Expect(opts *RunOptions) map[string]bool {
 	}
 	for i := range vShape {
 		s := &vShape[i]
-		if s.always || vExec[s.name] == 0 || !vLastOK[s.name] {
+		if s.always || vExec[s.name] == 0 || !vLastOK[s.name] || vGone(s.name) {
 			continue
 		}
 		if vSaw[s.name] != vInputsOf(s.name) {
@@ -474,7 +488,7 @@ func vEvaluatingSet() map[string]bool {
 
 // ---------------------------------------------------------------- harness entry points
 
-var vPlans = []string{"", "EB", "EBB", "BEB", "EEB", "EBE", "G", "EBG", "GEB"}
+var vPlans = []string{"", "EB", "EBB", "BEB", "EEB", "EBE", "G", "EBG", "GEB", "EG"}
 
 // vCollect: `dawn gc` — a fresh load of the project followed by Project.GC. It must not change what
 // the following builds execute (C14), which the C01/C02 oracles of the later builds then check.
@@ -524,6 +538,7 @@ func VHarnessHistory() {
 	vSteps()
 	vFail = map[string]bool{}
 	vBroken = map[string]bool{}
+	// (a removed target stays removed: a removed label is not re-created after a collection)
 	r := vBuildOf(top, nil)
 	vAssert(r.buildErr == nil, "a build without failing bodies fails")
 	vReach("history-done")
@@ -609,7 +624,10 @@ func VHarnessDry() {
 		vBuildOf(top, nil)
 	}
 	vAllowBreak = true
+	keep := vKeepProject
+	vKeepProject = false // the history before the product consists of separate processes
 	vSteps()
+	vKept, vKeepProject = nil, keep // the dry run and the real build share one loaded project when reload=0
 	tn := names[len(names)-1-vChoose("build-target", len(names))]
 	always := vAllowAlways && vNondetBool("always")
 	vFail = map[string]bool{}
@@ -626,6 +644,11 @@ func VHarnessDry() {
 	}
 	r := vBuildOf(tn, opts)
 	real := vEvaluatingSet()
+	for l := range real {
+		if sp, isFn := vBodies[vNameOf(l)]; isFn && l == vLabelOf(sp) {
+			vAssert(vRanBody(sp.name), "C13: after a dry run the real build reports a target as evaluating without executing it")
+		}
+	}
 	if vBroken[top] && failing == "" {
 		vReach("dry-vs-broken-real") // both fail at the missing dependency; state checks already done
 		return
